@@ -269,6 +269,28 @@ def rule_reduce_axis(ctx):
             if e.kind == 'store_attr' and e.b == 'axes' and e.c[0] == 'comp' and e.c[2][0] == 'ifexp' and e.c[2][2] == P_('newaxis') \
                     and e.c[2][1] == T.mkcmp('==', ('attr', ('elem', ('attr', SELF, 'axes'), e.c[3][0][0]), 'name'), name):   # canonical: ifexp(a == b, when equal, otherwise)
                 good = True
+    if not good:
+        # the same list built by an accumulating loop with one append per branch: append(newaxis) where the name matches, append(copy) elsewhere
+        evf = run(ctx, fi, bind={'keepdims': T.CONST_TRUE}, facts={T.mkcmp('is', P_('newaxis'), T.CONST_NONE): False}, mode='fork', max_paths=20000)
+        req, oth, odd = False, False, False
+        for p in ret_paths(evf):
+            for e in p.calls('append'):
+                if len(e.loops) != 1 or not e.a[2] or T.call_receiver(e.a)[0] not in ('list', 'mut', 'phi', 'carried', 'call'):
+                    continue
+                a = e.a[2][0]
+                el = [x for x in T.subterms(a) if x[0] == 'elem' and x[1] == ('attr', SELF, 'axes')]
+                same = [pol for g, pol in e.guards if g[0] == 'cmp' and g[1] == '==' and g[3] == name or (g[0] == 'cmp' and g[1] == '==' and g[2] == name)]
+                if a == P_('newaxis'):
+                    if same and same[-1] is True:
+                        req = True
+                    else:
+                        odd = True
+                elif a[0] == 'call' and T.call_name(a) == 'copy' and el and T.call_receiver(a) == el[0]:
+                    if same and same[-1] is False:
+                        oth = True
+                    else:
+                        odd = True
+        good = req and oth and not odd
     if good:
         ctx.holds('R4', 'reduce_axis(keepdims, newaxis=): the axis of that name is the requested one, the others are copies')
     else:
